@@ -191,7 +191,11 @@ RelSimFail(ev) ==
       same(ra, rb) == /\ ra.choice = rb.choice
                       /\ Close(ra.value, rb.value, C.reltol)
                       /\ (ev.scope = "all" => ra.state = rb.state /\ ra.period = rb.period)
-      badPairs == {<<p, j>> \in periods \X (1..b.N) : ~same(RowAt(a, p, ev.map[j] + 1), RowAt(b, p, j))}
+      \* an agent whose value is NaN in both runs has left the scope of the properties (ill-defined arithmetic such as
+      \* 0 * -inf): its decisions are arbitrary from then on and are not compared; NaN in only one run is a difference
+      undefinedFrom(j) == {p \in 0..M.T - 1 : IsNaN(RowAt(a, p, ev.map[j] + 1).value) /\ IsNaN(RowAt(b, p, j).value)}
+      inScope(p, j) == \A q \in undefinedFrom(j) : p < q
+      badPairs == {<<p, j>> \in periods \X (1..b.N) : inScope(p, j) /\ ~same(RowAt(a, p, ev.map[j] + 1), RowAt(b, p, j))}
   IN IF Len(ev.map) # b.N THEN Fail(ev.what, "number of agents")
      ELSE IF badPairs # {}
         THEN LET pj == CHOOSE pj \in badPairs : TRUE
